@@ -173,7 +173,7 @@ PROPS = {
         "assumptions": [],
     },
     "C08": {
-        "lean_modules": ["StimModel.Props.C08", "StimModel.Props.C08b", "StimModel.Props.C08c", "StimModel.Props.C08d", "StimModel.Props.C08e"],
+        "lean_modules": ["StimModel.Props.C08", "StimModel.Props.C08b", "StimModel.Props.C08c", "StimModel.Props.C08d", "StimModel.Props.C08e", "StimModel.Props.C08f"],
         "builds": ["asan"],
         "areas": [
             {"area": "dem", "n": {"quick": 1500, "thorough": 30000}, "builds": ["asan"], "replayable": True},
@@ -316,7 +316,7 @@ PROPS = {
     },
     "C07": {
         "lean_modules": ["StimModel.Props.C07", "StimModel.Props.C07b", "StimModel.Props.C07c", "StimModel.Props.C07d",
-                         "StimModel.Props.C07e", "StimModel.Props.C07f", "StimModel.Props.C07g", "StimModel.Props.C07h"],
+                         "StimModel.Props.C07e", "StimModel.Props.C07f", "StimModel.Props.C07g", "StimModel.Props.C07h", "StimModel.Props.C07i"],
         "builds": ["asan"],
         "areas": [
             {"area": "text", "n": {"quick": 800, "thorough": 16000}, "replayable": True, "builds": ["asan"]},
